@@ -136,6 +136,14 @@ func Run(c *lib.Ctx) {
 		}
 	}
 
+	// (2w) the window of the known finding open-hook-window, forced
+	if !only {
+		for i := 0; i < c.Scale(3, 20); i++ {
+			r := rng.Fork()
+			c.Count(slow(c, "open-hook window", func() string { return openWindowCase(c, r, sc, &fails) }))
+		}
+	}
+
 	// (2b) fan-in: two writers of one process racing into one in-port
 	if !only {
 		for i := 0; i < c.Scale(6, 40); i++ {
